@@ -18,6 +18,7 @@ namespace c09
         virtual std::string encode_one(const Item &it, const GenCfg &cfg, bool *matches_layout_rule = nullptr) = 0;
         virtual bool decode_one_equals(const Item &it, const GenCfg &cfg, const std::string &bytes) = 0;
     };
-    Api *make_api1(); // igris/serialize/archive.h + stdtypes.h
+    Api *make_api1(); // igris/serialize/archive.h + stdtypes.h (binary_string_writer / binary_buffer_reader)
+    Api *make_api1b(); // same, through binary_buffer_writer and the igris::serialize(obj) / igris::deserialize<T>(buffer) helpers
     Api *make_api2(); // igris/serialize/serializer.h family
 }
